@@ -85,6 +85,12 @@ CHECKS = {
          'fields written (names, app_specific_info, object_groups, sensitive) exclude the nine protected ones and match the getter; stored values derive from '
          'the request attribute value only. Exhaustive over all paths and helper calling contexts.',
          'Trusted: T_PROTECTED transcribes the property. Positional index semantics are value-level.'),
+ 'C18': ('key-provenance / guard-dominance analysis of every policy-store update (inductive reserved-name invariant), JSON shape taint in the parser, paired-update and shadow-stack position checks',
+         'PARTIAL CLAIM: decides (a) built-in policies can never be replaced or removed, (b) a malformed document is rejected by ValueError before any structure is '
+         'touched, (c) store/map/cache are updated in pairs and the shadow push precedes every overwrite with agreeing tuple positions. These are necessary conditions. '
+         'The clause "each name maps to the most recently loaded definition after any sequence of file events" quantifies over runtime histories of a state '
+         'machine and is NOT decided by this check (static analysis cannot bound it; model checking would).',
+         'Trusted: json.loads shapes; DictProxy dict semantics; os.path.getmtime ordering.'),
 }
 
 NOT_YET = 'check not built yet in this session (rules designed in DESIGN.md section 4); will be claimed once its check exists and is silent on the unchanged tree'
